@@ -201,7 +201,7 @@ def joint_delay_callback(run, name='trans_and_rec_time_fxn'):
             sus = args[1]
             run2.assume(so.forall(so.U(), lambda v: Implies(td.dom[v], sus.contains(v))))
         run2.ghost.setdefault('cb_calls', []).append(dict(args=args, kw=kw, td=td, rd=rd,
-                                                         status_val=run2.cur_env['status'].val if 'status' in run2.cur_env else None))
+                                                         status_val=run2.local('status').val if 'status' in run2.cur_env else None))
         return (td, rd)
     return Callback(name, fn)
 
